@@ -1,10 +1,41 @@
-//! C07 — stub: property not yet claimed.
+//! C07 — hostile or truncated input ends a stream with one error, never a hang or panic.
 use crate::common::*;
+use crate::framing::*;
 
-pub fn generate(_tier: &str, _rng: &mut Rng) -> Vec<String> {
-    Vec::new()
+pub fn generate(tier: &str, rng: &mut Rng) -> Vec<String> {
+    let thorough = tier == "thorough";
+    let mut out = Vec::new();
+    // corpus: DESIGN §5.5 witnesses
+    out.push("dec req none none 8192 6 Z 0 EV d0700000000010900000000020909".to_string());
+    out.push("dec req none none 8192 6 Z 0 EV d00000000050102".to_string());
+    out.push("dec resp200 none none 8192 6 Z 0 EV d00000000050102 t0".to_string());
+    out.push("dec resp200 none none 8192 6 Z 0 EV d0000000001 e14".to_string());
+    out.push("dec req none none 8192 6 Z 0 EV d0100000000".to_string());
+    out.push("dec req none 4 8192 6 Z 0 EV d00000000050102030405 d000000000109".to_string());
+    out.push("dec req none none 8192 6 Z 0 EV d0000000003ff0102 d000000000109".to_string());
+    let n = if thorough { 60000 } else { 5000 };
+    for _ in 0..n {
+        out.push(gen_dec_hostile(rng).line());
+    }
+    for _ in 0..n / 5 {
+        out.push(gen_dec_valid(rng, true).line());
+    }
+    // truncation at every byte of a few valid streams, each also cut at every byte
+    let k = if thorough { 40 } else { 6 };
+    for _ in 0..k {
+        let enc = *rng.pick(&ENCS);
+        let (bytes, starts, _) = gen_valid_stream(rng, enc, 12);
+        for cut in 0..bytes.len() {
+            let b = &bytes[..cut];
+            let style = rng.below(4);
+            let chunks = chunkings(rng, b, &starts, style);
+            let evs = events_from_chunks(rng, chunks, false);
+            out.push(DecCase { dir: gen_dir(rng), enc, max: None, buf_size: 16, evs, stream: b.to_vec(), extra_polls: 4 }.line());
+        }
+    }
+    out
 }
 
-pub fn execute(_case: &str) -> String {
-    "unclaimed".into()
+pub fn execute(case: &str) -> String {
+    crate::framing::execute(case)
 }
